@@ -1,2 +1,17 @@
-(* C04 -- decoder soundness.  Theorems are added here as they are proved. *)
-From PJ.Model Require Import Base.
+(* C04 -- property theorems; see DESIGN.md section 6.  Grows as proofs are completed. *)
+From PJ.Model Require Import Base Lookup Terms Encoder Api.
+From PJ.Proofs Require Import Mirror MirrorRun EncoderProofs.
+
+(* The split of an IRI into prefix and name loses nothing (what the reader concatenates is the IRI). *)
+Theorem C04_split_iri_lossless : forall iri : str, let '(p, n) := split_iri iri in p ++ n = iri.
+Proof. exact split_iri_app. Qed.
+Print Assumptions C04_split_iri_lossless.
+
+(* Every index the writer emits for a key resolves on the reader to that key, for every history
+   of hits, misses and evictions of each table (the lookup core of the round trip; see C05). *)
+Theorem C04_lookup_indices_resolve :
+  forall (rule : lk_rule) (size : N) (keys : list str),
+    1 <= size ->
+    Forall2 (fun k o => exists obs, o = Some obs /\ obs_ok size k obs) keys (api_lookup rule size keys).
+Proof. exact api_lookup_ok. Qed.
+Print Assumptions C04_lookup_indices_resolve.
